@@ -13,7 +13,7 @@ EXPLANATION = ("Decides, for every method of a foreign trait implemented for Pro
                "of one logical operation have the same row; wrap_* constructors store the wrapped object and a clone of the bar.")
 UNDECIDED = "Rayon's scheduling across splits beyond the per-wrapper rows (e.g. which split finishes the shared bar)."
 
-WRAPPERS = ("iter::ProgressBarIter", "rayon::ProgressProducer", "rayon::ProgressConsumer", "rayon::ProgressFolder")
+WRAPPERS = ("iter::ProgressBarIter", "rayon::ProgressProducer", "rayon::ProgressPart", "rayon::ProgressConsumer", "rayon::ProgressFolder")
 INNER_FIELDS = ("it", "base", "callback")
 INC = r"progress_bar::ProgressBar::inc"
 SETPOS = r"progress_bar::ProgressBar::set_position"
@@ -27,6 +27,7 @@ SPEC = {
     ("Stream", "poll_next"): {"inc@some:const1", "finish@none:-"},
     ("ExactSizeIterator", "len"): set(),
     ("Iterator", "size_hint"): set(),
+    ("Stream", "size_hint"): set(),
     ("Write", "write_all"): {"inc@ok:len(param)"},
     ("BufRead", "read_line"): {"inc@ok:inner"},
     ("BufRead", "read_until"): {"inc@ok:inner"},
@@ -83,6 +84,15 @@ SIBLINGS = [
     (("Write", "write"), ("Write", "write_vectored")),
     (("Read", "read"), ("Read", "read_vectored")),
 ]
+# rows that hold for one adaptor type only: the parts of a split rayon producer count like the sequential iterator but never
+# finish the shared bar (R-RAYON-SPLIT-NO-FINISH; the bar finishes when its last handle is dropped)
+SPEC_BY_TYPE = {
+    ("rayon::ProgressPart", "Iterator", "next"): {"inc@some:const1"},
+    ("rayon::ProgressPart", "DoubleEndedIterator", "next_back"): {"inc@some:const1"},
+}
+
+SPEC_BY_TYPE_KEYS = {(k[1], k[2]) for k in SPEC_BY_TYPE}
+
 IGNORED_TRAITS = ("std::fmt::Debug", "std::clone::Clone", "std::iter::FusedIterator")
 
 VALUE_PRESERVING = (
@@ -298,7 +308,7 @@ def run(ctx, crate):
     if "futures" in crate.features:
         floor += 1
     if "rayon" in crate.features:
-        floor += 17
+        floor += 21
     ctx.floor("R-WRAP-PASSTHROUGH", len(methods), floor, cfg, "wrapper trait methods")
     rows = {}
     for m in methods:
@@ -306,12 +316,26 @@ def run(ctx, crate):
         inner = inner_calls(m)
         rule_passthrough(ctx, crate, m, inner)
         effs = collect_effects(crate, m, inner)
-        rows[(tr, name)] = (m, effs)
+        # (the sibling table compares the public adaptor's rows; a helper type implementing the same trait gets its own key)
+        rk = (tr, name) if (m.impl.get("self_head") or "") == "iter::ProgressBarIter" or (tr, name) not in SPEC_BY_TYPE_KEYS else ("%s:%s" % ((m.impl.get("self_head") or "").rsplit("::", 1)[-1], tr), name)
+        rows[rk] = (m, effs)
         rule_effect(ctx, crate, m, tr, name, effs)
     rule_siblings(ctx, crate, rows)
     rule_constructors(ctx, crate)
     rule_rayon_shares_bar(ctx, crate)
     rule_wrapper_impl_bounds(ctx, crate)
+    # "does not change the ... return values ... seen by the caller": the provided methods of these traits whose *default* answers
+    # without asking the wrapped value ((0, None), None) must be forwarded too - collect(), zip() and rayon's collectors act on them
+    QUERIES = {"std::iter::Iterator": ("size_hint",), "futures_core::Stream": ("size_hint",), "rayon::iter::ParallelIterator": ("opt_len",)}
+    have = {((m.impl.get("self_head") or m.impl.get("self_ty") or "").split("<")[0], m.impl["trait"], K.meth(m.name)) for m in methods}
+    for im in crate.impls:
+        if (im.get("self_head") or "") not in WRAPPER_TYPES or im["trait"] not in QUERIES:
+            continue
+        for q in QUERIES[im["trait"]]:
+            ctx.check((im.get("self_head"), im["trait"], q) in have, "R-WRAP-PASSTHROUGH", "%s::%s:forwarded" % (tshort(im["trait"]), q), "<%s as %s>" % (im["self_ty"], im["trait"]), "%s:%d" % (im["file"], im["line"]),
+                      "%s::%s is forwarded to the wrapped value" % (tshort(im["trait"]), q),
+                      "%s does not override %s::%s: the caller sees the trait's default answer instead of the wrapped value's (`v.iter().progress().size_hint()` is (0, None))" % (
+                          im["self_ty"], tshort(im["trait"]), q), cfg)
     rule_rayon_split_no_finish(ctx, crate)
     # "... for every split of a parallel iterator across worker threads" (and clones used from several threads): the counting
     # primitive the adaptors call is one atomic read-modify-write
@@ -433,7 +457,7 @@ def rule_effect(ctx, crate, m, tr, name, effs, rule="R-WRAP-EFFECT"):
     cfg = crate.config
     key = "%s::%s" % (tr, name)
     rule_effect_exact(ctx, crate, m, tr, name, effs, rule)
-    want = SPEC.get((tr, name))
+    want = SPEC_BY_TYPE.get(((m.impl.get("self_head") or ""), tr, name), SPEC.get((tr, name)))
     if want is None:
         ctx.bad(rule, key + ":unlisted", m.name, K.fn_loc(m), "wrapper method %s has no row in the effect table (new adaptor method: its counting is unchecked)" % key, cfg)
         return
